@@ -83,6 +83,7 @@ fn main() {
         "C04" => facets::c04::run(&opts),
         "C10" => facets::c10::run(&opts),
         "C05" => facets::c05::run(&opts),
+        "C07" => facets::c07::run(&opts),
         "C08" => facets::c08::run(&opts),
         other => {
             eprintln!("unknown facet {}", other);
